@@ -35,7 +35,7 @@ type replNode struct {
 	mgr *replication.Manager
 }
 
-func freeAddr() string {
+func replFreeAddr() string {
 	l, err := net.Listen("tcp", "127.0.0.1:0")
 	if err != nil {
 		return "127.0.0.1:0"
@@ -107,14 +107,14 @@ func (n *replNode) stop(max time.Duration) bool {
 	}
 }
 
-func engLastSeq(e *engine.EngineFacade) string {
+func replEngLastSeq(e *engine.EngineFacade) string {
 	return fmt.Sprint(e.GetStats()["storage_last_sequence"])
 }
 
-// scanTokens projects the whole visible state of an engine on tokens: the value of every model key by a point read,
+// replScanTokens projects the whole visible state of an engine on tokens: the value of every model key by a point read,
 // and the number of live keys outside the model by a scan (values are taken from point reads because the merged
 // iterator over several memtables is the subject of another property, C05, and has findings of its own).
-func scanTokens(conc Conc, e *engine.EngineFacade, keys, vals []string) (map[string]string, int, error) {
+func replScanTokens(conc Conc, e *engine.EngineFacade, keys, vals []string) (map[string]string, int, error) {
 	st := map[string]string{}
 	for _, k := range keys {
 		v, err := e.Get(conc.Key(k))
@@ -142,13 +142,13 @@ func scanTokens(conc Conc, e *engine.EngineFacade, keys, vals []string) (map[str
 	return st, unknown, nil
 }
 
-// stableScan returns a scan during which the engine executed no write (its sequence counter did not move), so that the
+// replStableScan returns a scan during which the engine executed no write (its sequence counter did not move), so that the
 // sample is one state of the engine and not a mixture; ok=false if no quiet moment was found.
-func stableScan(conc Conc, e *engine.EngineFacade, keys, vals []string, tries int) (map[string]string, int, bool) {
+func replStableScan(conc Conc, e *engine.EngineFacade, keys, vals []string, tries int) (map[string]string, int, bool) {
 	for i := 0; i < tries; i++ {
-		s0 := engLastSeq(e)
-		st, x, err := scanTokens(conc, e, keys, vals)
-		if err == nil && engLastSeq(e) == s0 {
+		s0 := replEngLastSeq(e)
+		st, x, err := replScanTokens(conc, e, keys, vals)
+		if err == nil && replEngLastSeq(e) == s0 {
 			return st, x, true
 		}
 		time.Sleep(time.Millisecond)
@@ -200,7 +200,7 @@ func (d *replDriver) sampleOnce(force bool) (map[string]string, bool) {
 		return nil, false
 	}
 	rep := d.reported(d.repl)
-	st, x, ok := stableScan(d.conc, d.repl.eng, d.keys, d.vals, 3)
+	st, x, ok := replStableScan(d.conc, d.repl.eng, d.keys, d.vals, 3)
 	if !ok {
 		return nil, false
 	}
@@ -307,7 +307,7 @@ func replSysCmd(args []string) int {
 		sc.DeadlineS = 30
 	}
 	d := &replDriver{conc: Conc{Class: *class, Seed: *seed}, keys: []string{"k1", "k2", "k3"}, vals: txVals, dir: *dir,
-		paddr: freeAddr(), raddr: freeAddr(), stopS: make(chan struct{})}
+		paddr: replFreeAddr(), raddr: replFreeAddr(), stopS: make(chan struct{})}
 	json.Unmarshal([]byte(*cfgJSON), &d.cc)
 	d.log, err = newEvLog(*out)
 	if err != nil {
@@ -384,7 +384,7 @@ func replSysCmd(args []string) int {
 	for time.Now().Before(deadline.Add(time.Second)) && stable < 4 {
 		time.Sleep(50 * time.Millisecond)
 		var ok bool
-		pst, _, ok = stableScan(d.conc, d.prim.eng, d.keys, d.vals, 3)
+		pst, _, ok = replStableScan(d.conc, d.prim.eng, d.keys, d.vals, 3)
 		if !ok {
 			continue
 		}
